@@ -290,7 +290,7 @@ var (
 	DropShadow        = regexp.MustCompile(`^drop-shadow\(([-]?[0-9]+px) ([-]?[0-9]+px)( [-]?[0-9]+px)?( ([-]?[0-9]+px))?`)
 	Font              = regexp.MustCompile(`^('[a-z \-]+'|[a-z \-]+)$`)
 	Grayscale         = regexp.MustCompile(`^grayscale\(([0-9]{1,2}|100)%\)$`)
-	GridTemplateAreas = regexp.MustCompile(`^(?:"[a-z ]+"|'[a-z ]+'|[a-z ]+)$`)
+	GridTemplateAreas = regexp.MustCompile(`^(?:"[a-z ]*[a-z][a-z ]*"|'[a-z ]*[a-z][a-z ]*'|[a-z ]*[a-z][a-z ]*)$`)
 	HexRGB            = regexp.MustCompile(`^#([0-9a-f]{3,4}|[0-9a-f]{6}|[0-9a-f]{8})$`)
 	HSL               = regexp.MustCompile(`^hsl\([ ]*([012]?[0-9]{1,2}|3[0-5][0-9]|360),[ ]*([0-9]{0,2}|100)\%,[ ]*([0-9]{0,2}|100)\%\)$`)
 	HSLA              = regexp.MustCompile(`^hsla\(([ ]*[012]?[0-9]{1,2}|3[0-5][0-9]|360),[ ]*([0-9]{0,2}|100)\%,[ ]*([0-9]{0,2}|100)\%,[ ]*(1|1\.0|0|(0\.[0-9]+))\)$`)
@@ -534,8 +534,12 @@ func BackgroundHandler(value string) bool {
 	splitVals := strings.Split(value, " ")
 	newSplitVals := []string{}
 	for _, i := range splitVals {
-		if len(strings.Split(i, "/")) == 2 {
-			newSplitVals = append(newSplitVals, strings.Split(i, "/")...)
+		if parts := strings.Split(i, "/"); len(parts) == 2 {
+			if parts[0] == "" || parts[1] == "" {
+				// nothing before or after the solidus
+				return false
+			}
+			newSplitVals = append(newSplitVals, parts...)
 		} else {
 			newSplitVals = append(newSplitVals, i)
 		}
@@ -622,6 +626,14 @@ func BorderHandler(value string) bool {
 		return true
 	}
 	splitVals := multiSplit(value, " ", "/")
+	if strings.Contains(value, "/") {
+		for _, i := range strings.Split(value, " ") {
+			if strings.HasPrefix(i, "/") || strings.HasSuffix(i, "/") || strings.Contains(i, "//") {
+				// nothing before, after or between solidi
+				return false
+			}
+		}
+	}
 	usedFunctions := []func(string) bool{
 		BorderWidthHandler,
 		BorderStyleHandler,
@@ -1129,8 +1141,12 @@ func FontHandler(value string) bool {
 	splitVals := strings.Split(value, " ")
 	newSplitVals := []string{}
 	for _, i := range splitVals {
-		if len(strings.Split(i, "/")) == 2 {
-			newSplitVals = append(newSplitVals, strings.Split(i, "/")...)
+		if parts := strings.Split(i, "/"); len(parts) == 2 {
+			if parts[0] == "" || parts[1] == "" {
+				// nothing before or after the solidus
+				return false
+			}
+			newSplitVals = append(newSplitVals, parts...)
 		} else {
 			newSplitVals = append(newSplitVals, i)
 		}
@@ -1153,7 +1169,9 @@ func FontFamilyHandler(value string) bool {
 	}
 	for _, i := range splitVals {
 		i = strings.TrimSpace(i)
-		if Font.FindString(i) != i {
+		// (MatchString: FindString returns "" for no match as well as for
+		// an empty family name)
+		if !Font.MatchString(i) {
 			return false
 		}
 	}
